@@ -5,6 +5,7 @@ import (
 	"go/ast"
 	"go/token"
 	"go/types"
+	"regexp"
 	"strings"
 
 	"golang.org/x/tools/go/packages"
@@ -75,6 +76,40 @@ func (c *Ctx) setIDCalls() []setIDCall {
 }
 
 // holdsReceiverMutex: the function starts with recv.mu.Lock() followed by defer recv.mu.Unlock().
+// calledOnlyUnderMutex: fn has at least one call site in package ir, and every call site
+// lies in a function that holds its receiver's mutex (Lock / defer Unlock prologue) or is
+// itself only called under a held mutex.
+func (c *Ctx) calledOnlyUnderMutex(fn *types.Func, visiting map[*types.Func]bool, depth int) (bool, string) {
+	if fn == nil || visiting[fn] || depth > 3 {
+		return false, ""
+	}
+	visiting[fn] = true
+	defer delete(visiting, fn)
+	sites, held := 0, 0
+	via := ""
+	c.eachFunc(pkgIR, func(p *packages.Package, fd *ast.FuncDecl, caller *types.Func) {
+		calls := false
+		ast.Inspect(fd.Body, func(n ast.Node) bool {
+			if call, ok := n.(*ast.CallExpr); ok && calleeOf(p.TypesInfo, call) == fn {
+				calls = true
+			}
+			return true
+		})
+		if !calls || caller == fn {
+			return
+		}
+		sites++
+		if ok, mu := holdsReceiverMutex(p.TypesInfo, fd); ok {
+			held++
+			via = mu + " held by " + funcKey(caller)
+		} else if ok, v := c.calledOnlyUnderMutex(caller, visiting, depth+1); ok {
+			held++
+			via = v
+		}
+	})
+	return sites > 0 && sites == held, via
+}
+
 func holdsReceiverMutex(info *types.Info, fd *ast.FuncDecl) (bool, string) {
 	if fd.Recv == nil || len(fd.Recv.List) != 1 || len(fd.Recv.List[0].Names) != 1 || len(fd.Body.List) < 2 {
 		return false, "not a method with a Lock/defer Unlock prologue"
@@ -135,6 +170,14 @@ func ruleRACE2(c *Ctx) []Obligation {
 		o := Obligation{Key: key, Pos: c.pos(sc.call.Pos()), Verdict: OK}
 		locked, mu := holdsReceiverMutex(info, sc.fd)
 		if !locked {
+			// a helper (method object, extracted step) that is only ever called with the owner's
+			// mutex held: every call of it in the package sits in a function that holds its
+			// receiver's mutex (directly, or itself only called that way)
+			if ok, via := c.calledOnlyUnderMutex(sc.fn, map[*types.Func]bool{}, 0); ok {
+				locked, mu = true, via
+			}
+		}
+		if !locked {
 			o.Verdict = VIOL
 			o.Detail = fmt.Sprintf("the ID is stored without the owner's mutex held (%s): two printers can number the same object concurrently", mu)
 			obs = append(obs, o)
@@ -144,11 +187,26 @@ func ruleRACE2(c *Ctx) []Obligation {
 		pm := buildParents(sc.fd.Body)
 		guarded, how := false, ""
 		recvS, argS := exprString(sc.recv), exprString(sc.arg)
+		// locals that hold the current ID (cur := n.ID()) read like the call itself
+		curLocals := map[string]bool{}
+		ast.Inspect(sc.fd.Body, func(n ast.Node) bool {
+			if as, ok := n.(*ast.AssignStmt); ok && as.Pos() < sc.call.Pos() && len(as.Lhs) == 1 && len(as.Rhs) == 1 {
+				if strings.ReplaceAll(exprString(as.Rhs[0]), " ", "") == recvS+".ID()" {
+					if id, ok := as.Lhs[0].(*ast.Ident); ok {
+						curLocals[id.Name] = true
+					}
+				}
+			}
+			return true
+		})
 		var node ast.Node = sc.call
 		for node != nil && !guarded {
 			par := pm[node]
 			if is, ok := par.(*ast.IfStmt); ok && is.Body == node {
 				cond := strings.ReplaceAll(exprString(is.Cond), " ", "")
+				for l := range curLocals {
+					cond = regexp.MustCompile(`\b`+regexp.QuoteMeta(l)+`\b`).ReplaceAllString(cond, recvS+".ID()")
+				}
 				for _, pat := range []string{recvS + ".ID()!=" + argS, argS + "!=" + recvS + ".ID()"} {
 					if strings.Contains(cond, strings.ReplaceAll(pat, " ", "")) {
 						guarded, how = true, "if "+exprString(is.Cond)
